@@ -269,6 +269,65 @@ fn wide_tall_pass(thorough: bool) -> (Acc, Vec<u32>) {
     (acc, js)
 }
 
+/// Integer-range family: one animated property of every primitive integer type, keyframed with values from the far
+/// ends of the type's range (all exactly representable in f32, as is every interpolated value asked for), three
+/// keyframes (0%, 50%, 100%), evaluated at the sixteenths of the cycle: the value strictly between two keyframes is
+/// their linear interpolation - exact here, whatever the order of the float operations.
+#[derive(Animate, Clone, Debug, Default, PartialEq)]
+struct Ints {
+    a: u64,
+    b: usize,
+    c: i64,
+    d: u32,
+    e: i32,
+    f: u16,
+    g: i16,
+    h: u8,
+    i: i8,
+}
+
+fn integer_range_family(acc: &mut Acc) {
+    // (k0, k50, k100) per field, as i128
+    let p = |e: u32| 1i128 << e;
+    let rows: [[(i128, i128, i128); 9]; 3] = [
+        [(p(63), p(63) + p(62), p(63) + p(61)), (p(63) + p(62), p(63), p(62)), (-p(63), 0, p(62)), (p(31), p(31) + p(30), p(30)), (-p(31), p(30), -p(30)), (0, 49152, 16384), (-32768, 16384, 0), (0, 192, 64), (-128, 64, 0)],
+        [(0, p(63), p(62)), (p(62), p(63) + p(62), p(63)), (p(62), -p(62), -p(63)), (0, p(31), p(31) + p(30)), (p(30), -p(31), 0), (49152, 0, 32768), (16384, -32768, -16384), (128, 0, 192), (64, -128, 96)],
+        [(p(63) + p(62), p(63) + p(62), p(63)), (p(63), p(63), 0), (-p(63), -p(63), -p(62)), (p(31) + p(30), p(31) + p(30), 0), (-p(31), -p(31), p(30)), (49152, 49152, 0), (-32768, -32768, 0), (192, 192, 0), (-128, -128, 0)],
+    ];
+    for (ri, r) in rows.iter().enumerate() {
+        for (ci, &(cycle, delay, rep, reverse)) in [(1.0f32, 0.0f32, Repeat::None, false), (2.0, 0.5, Repeat::Times(1), true), (0.5, -0.25, Repeat::Infinite, false)].iter().enumerate() {
+            let kf = |pos: f32, w: usize| {
+                let v = |i: usize| [r[i].0, r[i].1, r[i].2][w];
+                Ints::keyframe(pos).a(v(0) as u64).b(v(1) as usize).c(v(2) as i64).d(v(3) as u32).e(v(4) as i32).f(v(5) as u16).g(v(6) as i16).h(v(7) as u8).i(v(8) as i8)
+            };
+            let tl = Ints::timeline().duration_seconds(cycle).delay_seconds(delay).repeat(rep).reverse(reverse).keyframe(kf(0.0, 0)).keyframe(kf(0.5, 1)).keyframe(kf(1.0, 2)).build();
+            acc.timelines += 1;
+            for s in 0..=16u32 {
+                // position s/16 of a forward pass (for the reversing timing: of the first half cycle)
+                let q = s as f64 / 16.0;
+                let t = delay + cycle * if reverse { q as f32 / 2.0 } else { q as f32 };
+                if s == 16 && !reverse && rep == Repeat::Infinite {
+                    continue;
+                }
+                let mut got = Ints::default();
+                let ok = std::panic::catch_unwind(std::panic::AssertUnwindSafe(|| tl.update(&mut got, t))).is_ok();
+                acc.evals += 1;
+                acc.nontrivial += 9;
+                let g: [i128; 9] = [got.a as i128, got.b as i128, got.c as i128, got.d as i128, got.e as i128, got.f as i128, got.g as i128, got.h as i128, got.i as i128];
+                for (fi, name) in ["a: u64", "b: usize", "c: i64", "d: u32", "e: i32", "f: u16", "g: i16", "h: u8", "i: i8"].iter().enumerate() {
+                    let (k0, k1, k2) = r[fi];
+                    let want = if s <= 8 { k0 + (k1 - k0) * s as i128 / 8 } else { k1 + (k2 - k1) * (s as i128 - 8) / 8 };
+                    if !ok || g[fi] != want {
+                        acc.sink.add(&format!("integer-range:{}", name.split(": ").nth(1).unwrap()), (5u64 << 60) | (ri as u64) << 16 | (ci as u64) << 8 | s as u64, || {
+                            (format!("property {name} with keyframes 0% {k0}, 50% {k1}, 100% {k2} (cycle {cycle} s, delay {delay} s, {rep:?}, reverse {reverse}) at t = {t} (position {s}/16): got {} , linear interpolation gives {want}", if ok { g[fi].to_string() } else { "a panic".into() }), json!({"family": "integer-range", "row": ri, "timing": ci, "field": name, "keyframes": [k0.to_string(), k1.to_string(), k2.to_string()], "t": t}))
+                        });
+                    }
+                }
+            }
+        }
+    }
+}
+
 pub fn run(run: Run) -> ! {
     let nmax = if run.is_thorough() { 5 } else { 3 };
     let thetas = theta();
@@ -358,6 +417,7 @@ pub fn run(run: Run) -> ! {
     acc.evals += wt.evals;
     acc.nontrivial += wt.nontrivial;
     acc.ambiguous_skipped += wt.ambiguous_skipped;
+    integer_range_family(&mut acc);
     let mut cov = Map::new();
     cov.insert("wide_and_tall_family_evaluations".into(), json!(wt_evals));
     cov.insert("wide_family_keyframe_counts".into(), json!(wide_js.iter().map(|j| (1u64 << j) + 1).collect::<Vec<_>>()));
@@ -368,7 +428,7 @@ pub fn run(run: Run) -> ! {
     cov.insert("traces_validated_against_impl".into(), json!(acc.evals));
     cov.insert("evaluations".into(), json!(acc.evals));
     cov.insert("distinct_nontrivial".into(), json!(acc.nontrivial));
-    cov.insert("rule".into(), json!(format!("every keyframe list of size 0..={nmax} over positions {{0,1/4,1/2,3/4,1}} (ascending insertion, repeated positions included) x per-keyframe property subset in {{none,a,k,a+k}} x per-keyframe easing in {{none,x^2,1-(1-x)^2}} x default easing in {{Linear,OutBack}} (and, below the largest size, the same lists with the f64 property d in place of a) x 6 timing configurations x {{no start_with, start_with(v*)}} x time grid tau (32 points per cycle, all phases, 1e6, f32::MAX); states = timelines built, transitions = Timeline::update calls, each compared with RefTimeScale.RefCss; plus a non-dyadic companion family (positions 0,0.1,0.3,0.7,1; cycles 0.3,3,0.7,7; delay 0.1; built-in easings Ease/InQuad/InOutCubic; 29 irrational-offset samples per cycle) under the same tolerance, skipping samples within the f32 jitter window of a discontinuity of the time map; plus a WIDE family (one timeline of 2^j+1 keyframes at i/2^j for the j listed under wide_family_keyframe_counts, two property patterns - dense a / sparse k,d and sparse a / dense k - evaluated at every keyframe position and every segment midpoint, forward, reverse and repeated pass) a STEPPED family (2^j holds, j = 4..8 quick / 1..12 thorough: every hold is two keyframes, neighbouring holds meet in two tied keyframes with different values, all end-of-hold keyframes inserted before all start-of-hold keyframes - the value inside every hold must be the hold's value) a MICRO family (two keyframes of one property closer than f32::EPSILON - 2^-24, 2^-30, 2..16 ulp apart at 1/8, 1/4, 3/8, 2^-10 - evaluated at the floats strictly between them) an EXPLICIT-LINEAR family (keyframe easing alphabet {{none, Linear, x^2}} under the default OutBack), a CLUSTER family (17 regular keyframes plus 8 on consecutive f32 values just above 1/2, inserted in four orders) and a TALL family (every subset of size >= 2 of the grid {{0,1/8,..,1}} as position list, two content patterns, every 1/32), both with and without start_with: index arithmetic beyond the small-scope bound; a (case,property) is non-trivial when the position lies strictly between two defining keyframes with different values")));
+    cov.insert("rule".into(), json!(format!("every keyframe list of size 0..={nmax} over positions {{0,1/4,1/2,3/4,1}} (ascending insertion, repeated positions included) x per-keyframe property subset in {{none,a,k,a+k}} x per-keyframe easing in {{none,x^2,1-(1-x)^2}} x default easing in {{Linear,OutBack}} (and, below the largest size, the same lists with the f64 property d in place of a) x 6 timing configurations x {{no start_with, start_with(v*)}} x time grid tau (32 points per cycle, all phases, 1e6, f32::MAX); states = timelines built, transitions = Timeline::update calls, each compared with RefTimeScale.RefCss; plus a non-dyadic companion family (positions 0,0.1,0.3,0.7,1; cycles 0.3,3,0.7,7; delay 0.1; built-in easings Ease/InQuad/InOutCubic; 29 irrational-offset samples per cycle) under the same tolerance, skipping samples within the f32 jitter window of a discontinuity of the time map; plus a WIDE family (one timeline of 2^j+1 keyframes at i/2^j for the j listed under wide_family_keyframe_counts, two property patterns - dense a / sparse k,d and sparse a / dense k - evaluated at every keyframe position and every segment midpoint, forward, reverse and repeated pass) a STEPPED family (2^j holds, j = 4..8 quick / 1..12 thorough: every hold is two keyframes, neighbouring holds meet in two tied keyframes with different values, all end-of-hold keyframes inserted before all start-of-hold keyframes - the value inside every hold must be the hold's value) a MICRO family (two keyframes of one property closer than f32::EPSILON - 2^-24, 2^-30, 2..16 ulp apart at 1/8, 1/4, 3/8, 2^-10 - evaluated at the floats strictly between them) an EXPLICIT-LINEAR family (keyframe easing alphabet {{none, Linear, x^2}} under the default OutBack), a CLUSTER family (17 regular keyframes plus 8 on consecutive f32 values just above 1/2, inserted in four orders) and a TALL family (every subset of size >= 2 of the grid {{0,1/8,..,1}} as position list, two content patterns, every 1/32), both with and without start_with: index arithmetic beyond the small-scope bound; plus an INTEGER-RANGE family (a struct with one property of each of u64 usize i64 u32 i32 u16 i16 u8 i8, three keyframes with values from the far ends of each type's range - 2^63+2^62, -2^63, 2^31+2^30, 192, -128 ... - all exactly representable, three timings, every sixteenth of a pass: exact linear interpolation); a (case,property) is non-trivial when the position lies strictly between two defining keyframes with different values")));
     cov.insert("exhaustive".into(), json!(true));
     cov.insert("max_keyframes".into(), json!(nmax));
     cov.insert("ambiguous_positions_skipped".into(), json!(acc.ambiguous_skipped));
@@ -386,6 +446,14 @@ pub fn run(run: Run) -> ! {
 }
 
 pub fn replay(case: &Value) -> bool {
+    if case["family"] == "integer-range" {
+        let mut acc = Acc::default();
+        integer_range_family(&mut acc);
+        for (s, v) in &acc.sink.map {
+            println!("{s}: {}", v.desc);
+        }
+        return acc.sink.map.is_empty();
+    }
     let (spec, start, t, init) = case_from_json(case);
     let rt = RefTl::new(&spec);
     let mut tl = spec.build();
